@@ -25,7 +25,7 @@ ASSUMPTIONS = [
     "items are matched by field identity (output name or attribute name both accepted)",
     "declarations here avoid no_input / mode / dependencies / duplicate spellings: their interplay with reporting belongs to C05/C06",
 ]
-FTYPES = ["int", "int", "str", "listint", "optint", "dictint", "unionil", "tuple2", "andpos", "posint", "nested"]
+FTYPES = ["int", "int", "str", "listint", "optint", "dictint", "unionil", "tuple2", "andpos", "posint", "nested", "xorpos", "noteven"]
 
 
 def n_cases(tier):
